@@ -247,6 +247,31 @@ def make_body(case):
         for k, st in (case.get('initial') or {}).items():
             inner.data[KEYS[k]] = ('empty',) if st == 'empty' else ('complete', f'value-of-{KEYS[k]}')
             if st == 'empty': inner.had_empty = True
+        if mode == 'layered':
+            # two INDEPENDENT cachers built with default counters (a memory-like cache in front of a disk-like one): populating a key of
+            # the first reads the same key from the second - a lock held in one cacher must not exist for the other
+            inner2 = MonCache()
+            c1 = ConcurrentCacher(inner, None, sched.FAKE.Lock()); c2 = ConcurrentCacher(inner2, None, sched.FAKE.Lock())
+            k = KEYS['k1']
+            def caller(who):
+                def getter2():
+                    sched.record(('getter', who, 'k1/second')); return f'value-of-{k}'
+                def getter1():
+                    sched.record(('getter', who, 'k1/first'))
+                    with c2.get_set(k, getter2) as v2: return v2.read()
+                try:
+                    with c1.get_set(k, getter1) as v: val = v.read()
+                    if val != f'value-of-{k}': inner._bad('caller received a wrong value', f'{k}: {val}')
+                    sched.record(('done', who, 'get', 'k1', val))
+                except sched.Abort: raise
+                except BaseException as e:      # noqa
+                    sched.record(('raised', who, 'get', 'k1', type(e).__name__)); inner._bad(f'caller got unexpected {type(e).__name__}', str(e)[:80])
+                me = threading.current_thread().ident
+                sched.record(('locks', who, {f'{n}:{kk[1]}': v for n, c in enumerate((c1, c2)) for kk, v in c._locks.items() if v != 0 and kk[0] == me}))
+            ts = [threading.Thread(target=caller, args=(i,), daemon=True) for i in range(len(progs))]
+            for t in ts: t.start(); t.join()      # one after the other: the arrays are plain lists (no scheduling points), the waits are the subject
+            cells = {f'{n}:{i}': v for n, c in enumerate((c1, c2)) for i, v in enumerate(c._array) if v != 0}
+            return {'cells': cells, 'readers': +inner.readers, 'writers': +inner.writers}
         if mode == 'wired':
             # the callers are the worker processes of the REAL CobaMultiprocessor, which builds the ConcurrentCacher itself
             from coba.context import CobaContext, BasicLogger
@@ -263,7 +288,8 @@ def make_body(case):
         cacher = ConcurrentCacher(inner, array, lock)
         if mode == 'threads':
             eo = 'empty' in (case.get('initial') or {}).values()
-            ts = [threading.Thread(target=run_prog, args=(cacher, inner, p, i, eo), daemon=True) for i, p in enumerate(progs)]
+            kw = {'name': 'pool-worker'} if case.get('same_name') else {}      # thread pools give all their threads one name
+            ts = [threading.Thread(target=run_prog, args=(cacher, inner, p, i, eo), daemon=True, **kw) for i, p in enumerate(progs)]
         else:
             eo = 'empty' in (case.get('initial') or {}).values()
             ts = [sched.FakeProcess(target=run_prog, args=(cacher, inner, p, i, eo)) for i, p in enumerate(progs)]
@@ -300,7 +326,7 @@ def feature(case):
     keys = {k for p in case['progs'] for _, k in p}
     rel = 'same-key' if len(keys) == 1 else ('colliding-keys' if keys <= {'k1', 'k2'} else 'mixed-keys')
     init = ''.join(f' entry-initially-{v}' for v in sorted(set((case.get('initial') or {}).values())))
-    return f"{case['mode']} {'+'.join(ops)} {rel}{init}"
+    return f"{case['mode']}{' same-thread-name' if case.get('same_name') else ''} {'+'.join(ops)} {rel}{init}"
 
 
 # ---------------------------------------------------------------- part B: disk faults
@@ -372,6 +398,11 @@ class C19(Check):
             for c3 in (('rmv', 'k1'), ('get', 'k1')):
                 if tier == 'quick' and mode == 'procs' and c3[0] == 'get': continue
                 out.append({'kind': 'sched', 'mode': mode, 'progs': [[('get', 'k1')], [('get', 'k1')], [c3]]})
+        # caller threads that all carry the same thread NAME; two independent default-constructed cachers used nested by one caller
+        for progs in ([[('get', 'k1')], [('get', 'k1')]], [[('get', 'k1')], [('rmv', 'k1')]], [[('get', 'k1')], [('get', 'k1')], [('get', 'k1')]]):
+            out.append({'kind': 'sched', 'mode': 'threads', 'same_name': True, 'progs': progs})
+        out.append({'kind': 'sched', 'mode': 'layered', 'progs': [[('get', 'k1')]]})
+        out.append({'kind': 'sched', 'mode': 'layered', 'progs': [[('get', 'k1')], [('get', 'k1')]]})
         # the callers are workers of the real CobaMultiprocessor (which must hand every worker the SAME lock and counters)
         for a, b in ([('get', 'get'), ('get', 'rmv')] if tier == 'quick' else [(a, b) for a in OPS for b in OPS if a <= b]):
             out.append({'kind': 'sched', 'mode': 'wired', 'progs': [[(a, 'k1')], [(b, 'k1')]]})
@@ -404,7 +435,16 @@ class C19(Check):
         factory = lambda: make_body(case)
         a = sched.execute(factory()); b = sched.execute(factory())
         sig = lambda ex: (tuple(ex.choices), tuple(p.n for p in ex.points), json.dumps(ex.log, default=str))
-        if sig(a) != sig(b): raise HarnessError(f'nondeterministic execution for {case}')
+        if sig(a) != sig(b):
+            # the same schedule gave two different runs: fresh cachers, callers and counters were built for each, so something outside them
+            # (module / class level state of the cacher) survived; if a run is also wrong that is the violation, otherwise the harness lost control
+            bad = judge(case, a) + judge(case, b)
+            if not bad: raise HarnessError(f'nondeterministic execution for {case}')
+            for mode, what in bad:
+                acc.violation(f'ConcurrentCacher|{mode} (and the run is not reproducible: state outside the cacher objects survives)|{feature(case)}', what,
+                              {'case': case, 'policy': 'low', 'schedule': []}, order=(sum(len(p) for p in case['progs']), 0, 0))
+            acc.mark_nontrivial(); acc.outcome('nondeterministic')
+            return
         keys = [set(KEYS[k] for _, k in p) for p in case['progs']]
         idx = [set(_index(k) for k in ks) for ks in keys]
         if any(idx[i] & idx[j] for i in range(len(idx)) for j in range(i + 1, len(idx))): acc.mark_nontrivial()
